@@ -23,6 +23,11 @@ def cen : Shape → Pt
   | .point p => p
   | _ => (0, 0)
 
+/-- the line-like shape's `vertices` -/
+def vertsOf : Shape → List Pt
+  | .line vs => vs
+  | _ => []
+
 /-- `_touches_coordinate`: the exact on-segment test over every edge of the shape -/
 def tc (s : Shape) (q : Pt) : Bool := s.flatEdges.any (onEdge q)
 
@@ -46,13 +51,13 @@ theorem first_eq (er : List (List Edge)) (k : Pt → Except String Bool) :
   | cons r rest => cases r <;> rfl
 
 theorem containsPoint_eq (s : Shape) (q : Pt) (hs : s.isPolygonLike = true) :
-    (.ok (Src.Relate.containsPoint edgeRings segsOf containsCoord tc holes cen rs ri s (.point q)) : Except String Bool) =
+    (.ok (Src.Relate.containsPoint edgeRings segsOf containsCoord tc holes cen vertsOf rs ri s (.point q)) : Except String Bool) =
       containsShape s (.point q) := by
   cases s <;> simp_all [Src.Relate.containsPoint, containsShape, cen, isPolygonLike]
 
 theorem containsPoly_eq (s t : Shape) (hs : s.isPolygonLike = true) (ht : t.isPolygonLike = true) (hh : HolesNonempty s) :
-    Src.Relate.containsPoly edgeRings segsOf containsCoord tc holes cen rs ri s t = containsShape s t := by
-  have key : Src.Relate.containsPoly edgeRings segsOf containsCoord tc holes cen rs ri s t =
+    Src.Relate.containsPoly edgeRings segsOf containsCoord tc holes cen vertsOf rs ri s t = containsShape s t := by
+  have key : Src.Relate.containsPoly edgeRings segsOf containsCoord tc holes cen vertsOf rs ri s t =
       (if doEdgesIntersect s.flatEdges t.flatEdges then .ok false
        else if t.isPolygonLike && s.holes.any (fun h => match h.head? with
           | some v => t.containsCoord v | none => false) then .ok false
@@ -75,8 +80,8 @@ theorem containsPoly_eq (s t : Shape) (hs : s.isPolygonLike = true) (ht : t.isPo
   cases s <;> cases t <;> first | rfl | (simp [isPolygonLike] at hs ht)
 
 theorem containsLine_eq (s : Shape) (vs : List Pt) (hs : s.isPolygonLike = true) :
-    Src.Relate.containsLine edgeRings segsOf containsCoord tc holes cen rs ri s (.line vs) = containsShape s (.line vs) := by
-  have key : Src.Relate.containsLine edgeRings segsOf containsCoord tc holes cen rs ri s (.line vs) =
+    Src.Relate.containsLine edgeRings segsOf containsCoord tc holes cen vertsOf rs ri s (.line vs) = containsShape s (.line vs) := by
+  have key : Src.Relate.containsLine edgeRings segsOf containsCoord tc holes cen vertsOf rs ri s (.line vs) =
       (if doEdgesIntersect s.flatEdges (Shape.line vs).flatEdges then .ok false
        else do
         let vt ← (Shape.line vs).firstVertex
@@ -88,25 +93,25 @@ theorem containsLine_eq (s : Shape) (vs : List Pt) (hs : s.isPolygonLike = true)
   cases s <;> first | rfl | (simp [isPolygonLike] at hs)
 
 theorem containsMulti_eq (s : Shape) (ys : List Shape) :
-    Src.Relate.containsMulti edgeRings segsOf containsCoord tc holes cen rs ri s ys =
+    Src.Relate.containsMulti edgeRings segsOf containsCoord tc holes cen vertsOf rs ri s ys =
       Multi.singleContainsMulti rs s ys := by
   simp only [Src.Relate.containsMulti, Multi.singleContainsMulti_eq_all]
   rw [Bool.eq_iff_iff]; simp [List.any_eq_true, List.all_eq_true]
 
 theorem intersectsMulti_eq (s : Shape) (ys : List Shape) :
-    Src.Relate.intersectsMulti edgeRings segsOf containsCoord tc holes cen rs ri s ys =
+    Src.Relate.intersectsMulti edgeRings segsOf containsCoord tc holes cen vertsOf rs ri s ys =
       Multi.singleIntersectsMulti ri s ys := by
   simp only [Src.Relate.intersectsMulti, Multi.singleIntersectsMulti_eq_any]
   cases ys.any (fun y => ri s y) <;> rfl
 
 theorem intersectsPoint_eq (s : Shape) (q : Pt) (hs : s.isPolygonLike = true) :
-    (.ok (Src.Relate.intersectsPoint edgeRings segsOf containsCoord tc holes cen rs ri s (.point q)) : Except String Bool) =
+    (.ok (Src.Relate.intersectsPoint edgeRings segsOf containsCoord tc holes cen vertsOf rs ri s (.point q)) : Except String Bool) =
       intersectsShape s (.point q) := by
   cases s <;> simp_all [Src.Relate.intersectsPoint, Src.Relate.containsPoint, intersectsShape, relInter, cen, tc, isPolygonLike]
 
 theorem intersectsPoly_eq (s t : Shape) (hs : s.isPolygonLike = true) (ht : t.isPolygonLike = true) :
-    Src.Relate.intersectsPoly edgeRings segsOf containsCoord tc holes cen rs ri s t = intersectsShape s t := by
-  have key : Src.Relate.intersectsPoly edgeRings segsOf containsCoord tc holes cen rs ri s t =
+    Src.Relate.intersectsPoly edgeRings segsOf containsCoord tc holes cen vertsOf rs ri s t = intersectsShape s t := by
+  have key : Src.Relate.intersectsPoly edgeRings segsOf containsCoord tc holes cen vertsOf rs ri s t =
       (if doEdgesIntersect s.flatEdges t.flatEdges then .ok true else orFirst s t) := by
     simp only [Src.Relate.intersectsPoly, flatEdges, orFirst, firstVertex]
     congr 1
@@ -119,9 +124,9 @@ theorem intersectsPoly_eq (s t : Shape) (hs : s.isPolygonLike = true) (ht : t.is
   cases s <;> cases t <;> first | rfl | (simp [isPolygonLike] at hs ht)
 
 theorem intersectsLine_eq (s : Shape) (vs : List Pt) (hs : s.isPolygonLike = true) :
-    Src.Relate.intersectsLine edgeRings segsOf containsCoord tc holes cen rs ri s (.line vs) =
+    Src.Relate.intersectsLine edgeRings segsOf containsCoord tc holes cen vertsOf rs ri s (.line vs) =
       intersectsShape s (.line vs) := by
-  have key : Src.Relate.intersectsLine edgeRings segsOf containsCoord tc holes cen rs ri s (.line vs) =
+  have key : Src.Relate.intersectsLine edgeRings segsOf containsCoord tc holes cen vertsOf rs ri s (.line vs) =
       (if doEdgesIntersect s.flatEdges (Shape.line vs).flatEdges then .ok true else orFirst s (.line vs)) := by
     simp only [Src.Relate.intersectsLine, flatEdges, orFirst, firstVertex, segsOf]
     congr 1
@@ -135,13 +140,121 @@ theorem intersectsLine_eq (s : Shape) (vs : List Pt) (hs : s.isPolygonLike = tru
   rw [key]
   cases s <;> first | rfl | (simp [isPolygonLike] at hs)
 
+/-! ### `_is_on_segment`, and `GeoLineString` / `GeoPoint` as the receiver -/
+
+/-- the translated `_is_on_segment` is the model's exact on-edge test -/
+theorem isOnSegment_eq (c a b : Pt) :
+    Src.Relate.isOnSegment edgeRings segsOf containsCoord tc holes cen vertsOf rs ri c a b = onEdge c (a, b) := by
+  simp only [Src.Relate.isOnSegment, onEdge, pcross]
+  rw [Bool.eq_iff_iff]
+  simp only [Bool.and_eq_true, beq_iff_eq, decide_eq_true_eq, Int.cast_zero]
+  constructor
+  · rintro ⟨⟨h1, h2, h3⟩, h4, h5⟩; exact ⟨⟨⟨⟨decide_eq_true h1, h2⟩, h3⟩, h4⟩, h5⟩
+  · rintro ⟨⟨⟨⟨h1, h2⟩, h3⟩, h4⟩, h5⟩; exact ⟨⟨of_decide_eq_true h1, h2, h3⟩, h4, h5⟩
+
+theorem lineContainsPoint_eq (vs : List Pt) (q : Pt) :
+    (.ok (Src.Relate.lineContainsPoint edgeRings segsOf containsCoord tc holes cen vertsOf rs ri (.line vs) (.point q)) :
+      Except String Bool) = containsShape (.line vs) (.point q) := by
+  simp [Src.Relate.lineContainsPoint, Src.Relate.lineContainsCoordinate, containsShape, cen, vertsOf]
+
+theorem lineContainsLine_eq (vs ws : List Pt) :
+    (.ok (Src.Relate.lineContainsLine edgeRings segsOf containsCoord tc holes cen vertsOf rs ri (.line vs) (.line ws)) :
+      Except String Bool) = containsShape (.line vs) (.line ws) := by
+  simp [Src.Relate.lineContainsLine, containsShape, vertsOf]
+
+theorem lineContainsPoly_eq (vs : List Pt) (t : Shape) (ht : t.isPolygonLike = true) :
+    (.ok (Src.Relate.lineContainsPoly edgeRings segsOf containsCoord tc holes cen vertsOf rs ri (.line vs) t) :
+      Except String Bool) = containsShape (.line vs) t := by
+  cases t <;> simp_all [Src.Relate.lineContainsPoly, containsShape, isPolygonLike]
+
+theorem lineContainsMulti_eq (s : Shape) (ys : List Shape) :
+    Src.Relate.lineContainsMulti edgeRings segsOf containsCoord tc holes cen vertsOf rs ri s ys =
+      Multi.singleContainsMulti rs s ys := by
+  simp only [Src.Relate.lineContainsMulti, Multi.singleContainsMulti_eq_all]
+  rw [Bool.eq_iff_iff]; simp [List.any_eq_true, List.all_eq_true]
+
+theorem lineIntersectsMulti_eq (s : Shape) (ys : List Shape) :
+    Src.Relate.lineIntersectsMulti edgeRings segsOf containsCoord tc holes cen vertsOf rs ri s ys =
+      Multi.singleIntersectsMulti ri s ys := by
+  simp only [Src.Relate.lineIntersectsMulti, Multi.singleIntersectsMulti_eq_any]
+  cases ys.any (fun y => ri s y) <;> rfl
+
+theorem lineIntersectsPoint_eq (vs : List Pt) (q : Pt) :
+    (.ok (Src.Relate.lineIntersectsPoint edgeRings segsOf containsCoord tc holes cen vertsOf rs ri (.line vs) (.point q)) :
+      Except String Bool) = intersectsShape (.line vs) (.point q) := by
+  simp only [Src.Relate.lineIntersectsPoint, Src.Relate.lineContainsPoint, Src.Relate.lineContainsCoordinate, isOnSegment_eq,
+    intersectsShape, relInter, cen, vertsOf, segsOf, containsCoord, flatEdges, edgeRings, List.flatten_cons,
+    List.flatten_nil, List.append_nil]
+
+theorem lineIntersectsPoly_eq (vs : List Pt) (t : Shape) (ht : t.isPolygonLike = true) :
+    Src.Relate.lineIntersectsPoly edgeRings segsOf containsCoord tc holes cen vertsOf rs ri (.line vs) t =
+      intersectsShape (.line vs) t := by
+  have key : Src.Relate.lineIntersectsPoly edgeRings segsOf containsCoord tc holes cen vertsOf rs ri (.line vs) t =
+      (if doEdgesIntersect (Shape.line vs).flatEdges t.flatEdges then .ok true else orFirst (.line vs) t) := by
+    simp only [Src.Relate.lineIntersectsPoly, flatEdges, orFirst, firstVertex, segsOf]
+    congr 1
+    generalize t.edgeRings = te
+    simp only [edgeRings]
+    rcases te with _ | ⟨_ | ⟨e, _⟩, _⟩ <;> try rfl
+    simp only [Py.getIdx]
+    cases hc : (Shape.line vs).containsCoord e.1
+    · rcases ringSegs vs with _ | ⟨e', _⟩ <;> simp [hc, Py.getIdx, bind, Except.bind, pure, Except.pure]
+    · simp [hc, bind, Except.bind, pure, Except.pure]
+  rw [key]
+  cases t <;> first | rfl | (simp [isPolygonLike] at ht)
+
+theorem lineIntersectsLine_eq (vs ws : List Pt) :
+    Src.Relate.lineIntersectsLine edgeRings segsOf containsCoord tc holes cen vertsOf rs ri (.line vs) (.line ws) =
+      intersectsShape (.line vs) (.line ws) := by
+  have key : Src.Relate.lineIntersectsLine edgeRings segsOf containsCoord tc holes cen vertsOf rs ri (.line vs) (.line ws) =
+      (if doEdgesIntersect (Shape.line vs).flatEdges (Shape.line ws).flatEdges then .ok true
+       else orFirst (.line vs) (.line ws)) := by
+    simp only [Src.Relate.lineIntersectsLine, flatEdges, orFirst, firstVertex, segsOf, edgeRings]
+    congr 1
+    rcases ringSegs ws with _ | ⟨e, _⟩ <;> try rfl
+    simp only [Py.getIdx]
+    cases hc : (Shape.line vs).containsCoord e.1
+    · rcases ringSegs vs with _ | ⟨e', _⟩ <;> simp [hc, Py.getIdx, bind, Except.bind, pure, Except.pure]
+    · simp [hc, bind, Except.bind, pure, Except.pure]
+  rw [key]; rfl
+
+theorem pointContainsPoint_eq (p q : Pt) :
+    (.ok (Src.Relate.pointContainsPoint edgeRings segsOf containsCoord tc holes cen vertsOf rs ri (.point p) (.point q)) :
+      Except String Bool) = containsShape (.point p) (.point q) := by
+  simp [Src.Relate.pointContainsPoint, Src.Relate.pointContainsCoordinate, containsShape, cen]
+
+theorem pointContainsOther_eq (p : Pt) (t : Shape) (ht : ∀ q, t ≠ .point q) :
+    (.ok (Src.Relate.pointContainsPoly edgeRings segsOf containsCoord tc holes cen vertsOf rs ri (.point p) t) :
+      Except String Bool) = containsShape (.point p) t ∧
+    (.ok (Src.Relate.pointContainsLine edgeRings segsOf containsCoord tc holes cen vertsOf rs ri (.point p) t) :
+      Except String Bool) = containsShape (.point p) t := by
+  cases t <;> simp_all [Src.Relate.pointContainsPoly, Src.Relate.pointContainsLine, containsShape]
+
+theorem pointIntersectsPoint_eq (p q : Pt) :
+    (.ok (Src.Relate.pointIntersectsPoint edgeRings segsOf containsCoord tc holes cen vertsOf rs ri (.point p) (.point q)) :
+      Except String Bool) = intersectsShape (.point p) (.point q) := by
+  simp [Src.Relate.pointIntersectsPoint, intersectsShape, cen]
+
+/-- a point asked about any other kind of shape *delegates*: `shape.intersects_shape(self)` — the model's
+    `intersectsShape (.point p) t = relInter t (.point p)` is the same delegation -/
+theorem pointIntersects_delegates (p : Pt) (t : Shape) :
+    Src.Relate.pointIntersectsPoly edgeRings segsOf containsCoord tc holes cen vertsOf rs ri (.point p) t = ri t (.point p) ∧
+    Src.Relate.pointIntersectsLine edgeRings segsOf containsCoord tc holes cen vertsOf rs ri (.point p) t = ri t (.point p) :=
+  ⟨rfl, rfl⟩
+
+theorem pointContainsMulti_eq (s : Shape) (ys : List Shape) :
+    Src.Relate.pointContainsMulti edgeRings segsOf containsCoord tc holes cen vertsOf rs ri s ys =
+      Multi.singleContainsMulti rs s ys := by
+  simp only [Src.Relate.pointContainsMulti, Multi.singleContainsMulti_eq_all]
+  rw [Bool.eq_iff_iff]; simp [List.any_eq_true, List.all_eq_true]
+
 /-! ### C02 laws restated for the translated source -/
 
 /-- the source's polygon-in-polygon containment implies the source's intersection (for valid receivers) -/
 theorem src_contains_imp_intersects (s t : Shape) (hs : s.isPolygonLike = true) (ht : t.isPolygonLike = true)
     (hh : HolesNonempty s) (vs : C02.Valid s) (vt : C02.Valid t)
-    (h : Src.Relate.containsPoly edgeRings segsOf containsCoord tc holes cen rs ri s t = .ok true) :
-    Src.Relate.intersectsPoly edgeRings segsOf containsCoord tc holes cen rs ri s t = .ok true := by
+    (h : Src.Relate.containsPoly edgeRings segsOf containsCoord tc holes cen vertsOf rs ri s t = .ok true) :
+    Src.Relate.intersectsPoly edgeRings segsOf containsCoord tc holes cen vertsOf rs ri s t = .ok true := by
   rw [containsPoly_eq rs ri s t hs ht hh] at h
   rw [intersectsPoly_eq rs ri s t hs ht]
   exact C02.contains_imp_intersects s t vs vt h
